@@ -13,7 +13,11 @@ import (
 
 	"github.com/golang/snappy"
 	"github.com/samaritan-proxy/samaritan/host"
+	"github.com/samaritan-proxy/samaritan/pb/common"
+	"github.com/samaritan-proxy/samaritan/pb/config/protocol"
 	pbredis "github.com/samaritan-proxy/samaritan/pb/config/protocol/redis"
+	"github.com/samaritan-proxy/samaritan/pb/config/service"
+	"github.com/samaritan-proxy/samaritan/proc"
 	"github.com/samaritan-proxy/samaritan/proc/redis"
 
 	"verifharness/hx"
@@ -53,7 +57,107 @@ func (c11child) Gen(*hx.Run)         {}
 
 var c11seq int
 
+// c11.cycle   a backend that answers every GET with a MOVED pointing at itself for 1.5 s and normally afterwards (a redirection that is
+// well-formed and wrong).  Client 1 sends one MGET of 3000 keys; 0.5 s after the backend has turned sane client 2 asks for another key.
+//
+//	-> other=<served|hung> stop=<ok|hangs>
+func c11Cycle() string {
+	ln, err := net.Listen("tcp", "127.0.0.1:0")
+	if err != nil {
+		return "sockerr"
+	}
+	defer ln.Close()
+	self := ln.Addr().String()
+	saneAt := time.Now().Add(1500 * time.Millisecond)
+	go func() {
+		for {
+			c, err := ln.Accept()
+			if err != nil {
+				return
+			}
+			go func(c net.Conn) {
+				defer c.Close()
+				dec := redis.VerifNewDecoder(c, 4096)
+				for {
+					v, err := dec.Decode()
+					if err != nil {
+						return
+					}
+					cmd := ""
+					if len(v.Array) > 0 {
+						cmd = strings.ToLower(string(v.Array[0].Text))
+					}
+					rep := "-ERR not now\r\n"
+					switch {
+					case cmd == "get" && time.Now().Before(saneAt):
+						rep = "-MOVED 1 " + self + "\r\n"
+					case cmd == "get":
+						rep = "$1\r\nv\r\n"
+					case cmd == "readonly" || cmd == "asking":
+						rep = "+OK\r\n"
+					}
+					if _, err := c.Write([]byte(rep)); err != nil {
+						return
+					}
+				}
+			}(c)
+		}
+	}()
+	ct := time.Second
+	cfg := &service.Config{
+		Listener:        &service.Listener{Address: &common.Address{Ip: "127.0.0.1", Port: 0}},
+		ConnectTimeout:  &ct,
+		Protocol:        protocol.Redis,
+		ProtocolOptions: &service.Config_RedisOption{RedisOption: &protocol.RedisOption{ReadStrategy: pbredis.ReadStrategy_MASTER}},
+	}
+	c11seq++
+	p, err := proc.New(fmt.Sprintf("verif-c11c-%d", c11seq), cfg, []*host.Host{host.New(self)})
+	if err != nil {
+		return "procerr"
+	}
+	defer hx.DropScopes("service." + p.Name() + ".")
+	if err := p.Start(); err != nil {
+		return "procerr"
+	}
+	time.Sleep(2 * time.Millisecond)
+	for i := 0; i < 400 && p.Address() == ""; i++ {
+		time.Sleep(time.Millisecond)
+	}
+	c1, err := hx.DialClient(p.Address())
+	if err != nil {
+		p.Stop()
+		return "sockerr"
+	}
+	defer c1.C.Close()
+	args := [][]byte{[]byte("mget")}
+	for i := 0; i < 3000; i++ {
+		args = append(args, []byte(fmt.Sprintf("k%d", i)))
+	}
+	go c1.Write(args...)
+	time.Sleep(time.Until(saneAt) + 500*time.Millisecond)
+	other := "hung"
+	if c2, err := hx.DialClient(p.Address()); err == nil {
+		defer c2.C.Close()
+		c2.C.SetDeadline(time.Now().Add(3 * time.Second))
+		if v, err := c2.Do([]byte("get"), []byte("other")); err == nil && string(v.Text) == "v" {
+			other = "served"
+		}
+	}
+	stopped := "hangs"
+	done := make(chan struct{})
+	go func() { p.Stop(); close(done) }()
+	select {
+	case <-done:
+		stopped = "ok"
+	case <-time.After(3 * time.Second):
+	}
+	return fmt.Sprintf("other=%s stop=%s", other, stopped)
+}
+
 func (c11child) Exec(op string) string {
+	if op == "c11.cycle" {
+		return recoverStr(c11Cycle)
+	}
 	f := hx.Fields(op)
 	if len(f) < 2 {
 		return "bad-op"
